@@ -582,12 +582,12 @@ htp_status_t htp_connp_RES_BODY_DETERMINE(htp_connp_t *connp) {
             return rc;
         } else if (connp->out_tx->response_status_number == 407) {
             // proxy telling us to auth
-            if (connp->in_status != HTP_STREAM_ERROR)
+            if ((connp->in_status != HTP_STREAM_ERROR) && (connp->in_status != HTP_STREAM_STOP))
                 connp->in_status = HTP_STREAM_DATA;
         } else {
             // This is a failed CONNECT stream, which means that
             // we can unblock request parsing
-            if (connp->in_status != HTP_STREAM_ERROR)
+            if ((connp->in_status != HTP_STREAM_ERROR) && (connp->in_status != HTP_STREAM_STOP))
                 connp->in_status = HTP_STREAM_DATA;
 
             // We are going to continue processing this transaction,
@@ -610,7 +610,7 @@ htp_status_t htp_connp_RES_BODY_DETERMINE(htp_connp_t *connp) {
         if (te == NULL && cl == NULL) {
             connp->out_state = htp_connp_RES_FINALIZE;
 
-            if (connp->in_status != HTP_STREAM_ERROR)
+            if ((connp->in_status != HTP_STREAM_ERROR) && (connp->in_status != HTP_STREAM_STOP))
                 connp->in_status = HTP_STREAM_TUNNEL;
             connp->out_status = HTP_STREAM_TUNNEL;
 
